@@ -201,6 +201,13 @@ def h2_scratch():
     e4 = Encoder()
     yield "h2-frames", "malformed", h2_blob([S, A, headers(1, ok_head, encoder=e4), rst])
     yield "h2-frames", "malformed", h2_blob([S, A, rst])
+    # RST_STREAM with every error code after the response head / in the middle of the body
+    for code in range(0, 14):
+        r2 = hf.RstStreamFrame(1)
+        r2.error_code = code
+        ea, eb = Encoder(), Encoder()
+        yield "h2-frames", "reset", h2_blob([S, A, headers(1, ok_head, encoder=ea), r2])
+        yield "h2-frames", "reset", h2_blob([S, A, headers(1, [(":status", "200"), ("content-length", "10")], encoder=eb), data(1, b"parti"), r2])
     go = hf.GoAwayFrame(0)
     go.last_stream_id = 1
     go.error_code = 1
